@@ -456,6 +456,8 @@ package eval
 //@     invariant [top] (= $l (len $operatorStack))
 //@   loop 2 (i)
 //@     invariant [pops-available] (and (>= $i -1) (< $i (len $children)) (>= (len $outputStack) (+ $i 1)))
+//@     invariant [operands-in-source-order] (forall ((k Int)) (! (=> (and (< $i k) (< k (len $children)))
+//@          (= (select (arr $children) (+ (off $children) k)) (select (arr $outputStack) (+ (off $outputStack) (len $outputStack) (- k $i 1))))) :pattern ((select (arr $children) (+ (off $children) k)))))
 //@     decreases (+ $i 1)
 
 //@ macro (LEAFPARSERS $p) (forall ((j Int)) (! (=> (and (<= (off (fld $p leafNodeParser)) j) (< j (+ (off (fld $p leafNodeParser)) (len (fld $p leafNodeParser)))))
@@ -995,3 +997,26 @@ package eval
 //@   (define-fun overtakes ((x Real) (y Real)) Bool (< y x))   ; later operand with cost y overtakes earlier operand with cost x
 //@   (assert (<= cb cb2))
 //@   (assert (not (and (=> (<= ca cb) (not (overtakes ca cb))) (=> (not (overtakes ca cb)) (not (overtakes ca cb2))))))
+
+// ---------------------------------------------------------------------------
+// C15 — infix mechanism.  precOf / arityOf: the precedence table of the property statement
+// (* / % over + - over ! over comparisons over && over ||), 100 = call.
+//@ ghost (define-fun precOf ((s Int)) Int
+//@   (ite (or (= s "*") (= s "/") (= s "%")) 8 (ite (or (= s "+") (= s "-")) 7 (ite (= s "!") 6
+//@   (ite (or (= s "=") (= s "==") (= s "!=") (= s "<") (= s ">") (= s "<=") (= s ">=")) 5
+//@   (ite (or (= s "&") (= s "&&")) 4 (ite (or (= s "|") (= s "||")) 3 (ite (= s ",") 2 (ite (or (= s "(") (= s ")")) 1 (ite (= s "") -1 100))))))))))
+//@ ghost (define-fun arityOf ((s Int)) Int
+//@   (ite (= (precOf s) 100) -1 (ite (= s "!") 1 (ite (and (>= (precOf s) 3) (<= (precOf s) 8)) 2 0))))
+//@ func parser.getInfixOpInfo C15
+//@   ensures [table] (and (= (fld $ret0 precedence) (precOf $op)) (= (fld $ret0 childCount) (arityOf $op)))
+//@   assigns
+//@ lemma infix-precedence-order C15
+//@   ; the order the property states, and that only the listed spellings are operators
+//@   (assert (not (and (> (precOf "*") (precOf "+")) (= (precOf "*") (precOf "/")) (= (precOf "/") (precOf "%")) (= (precOf "+") (precOf "-"))
+//@                     (> (precOf "+") (precOf "!")) (> (precOf "!") (precOf "==")) (= (precOf "==") (precOf "=")) (= (precOf "!=") (precOf "<")) (= (precOf "<") (precOf ">="))
+//@                     (= (precOf "<=") (precOf ">")) (> (precOf "==") (precOf "&&")) (= (precOf "&&") (precOf "&")) (> (precOf "&&") (precOf "||")) (= (precOf "||") (precOf "|"))
+//@                     (> (precOf "||") (precOf ",")) (> (precOf ",") (precOf "(")) (> (precOf "(") (precOf "")) (= (precOf "mod") 100) (= (arityOf "mod") -1) (= (arityOf "!") 1) (= (arityOf "-") 2))))
+//@ func parser.parseInfixExpression.comparePrecedence C15
+//@   requires [parser] (not (= $p 0))
+//@   ensures [rule] (= $ret0 (ite (= (precOf (fld $car val)) 100) 100 (- (precOf (fld $car val)) (precOf (fld $top val)))))
+//@   assigns
